@@ -1188,7 +1188,7 @@ class ClientObservation:
 
         def push_err(self, e):
             if self._future.done():
-                if self._future.exception() is None:
+                if not self._future.cancelled() and self._future.exception() is None:
                     # There is an item nobody has picked up yet (typically the
                     # final response that precedes the cancellation). Items
                     # may be superseded by newer items, but not by the end of
